@@ -89,6 +89,28 @@ def c17(ck, replay=None):
     ck.traces = before
     ck.legs[-1].update(leg='L2', behaviours=len(behs), replayed=len(trs), exact=sum(1 for t in trs if t['l2']['exact']),
                        steps=sum(t['l2']['steps'] for t in trs), followed=sum(t['l2']['followed'] for t in trs))
-    ck.assumptions += ['thread queues under detsched; multiprocessing queues are not scheduled (same code path in IterableQueue)']
+    # suppliers and consumers in separate PROCESSES over multiprocessing queues (the object travels by pickle): per-process
+    # event sequences, TLC searches for the interleaving
+    from mbt.bind import iterqueue_proc as IP
+    pitems = [{'id': i + 1, 'sc': sc} for i, sc in enumerate(IP.gen_scenarios(rnd, 160 if thorough else 24))]
+    pout = ck.run_binder('iterqueue_proc', pitems, nproc=8, per_job=4, timeout=900, extra={'detsched': False})
+    ck.evaluations += int(pout.get('n_exec', 0))
+    for h in pout.get('hangs', []):
+        ck.violation({'leg': 'L3', 'kind': h.get('kind', 'hang'), 'where': 'processes', 'hang': h.get('hang'),
+                      'item': {'sc': h['sc']}},
+                     sig={'leg': 'L3', 'kind': h.get('kind', 'hang'), 'where': 'processes'})
+    pg = collections.defaultdict(list)
+    for t in pout.get('traces', []):
+        p = t['p']
+        pg[(p['m'], p['nc'], p['k'], p['rounds'], p['qbound'])].append(t)
+    ck.validate_groups('IterableQueue over multiprocessing queues: suppliers / consumers in separate processes, renew',
+                       'IterableQueueProcTrace',
+                       [(tlc.cfg_text(spec='TraceSpec', constants=dict(M=m, NC=nc, K=k, Rounds=r, QBound=qb, ExtraOnce=True,
+                                                                      MayStop=False),
+                                      constraint='Progress', postcondition='Report', deadlock=False), trs)
+                        for (m, nc, k, r, qb), trs in sorted(pg.items())],
+                       sig_of=lambda t, v: {'where': 'processes'})
+    ck.assumptions += ['thread queues under detsched (exact linearization order); multiprocessing queues: sampled OS '
+                       'schedules, per-process event order only, TLC searches the interleaving']
     ck.finish_rc = ck.finish(rule='m suppliers x n consumers x items x rounds x queue bound x schedule seeds; every queue '
                              'operation logged under the queue mutex; stop scenarios with exact virtual time')
